@@ -1759,6 +1759,14 @@ func (env *LEnv) call(ctx context.Context, fun *LVal, args *LVal) *LVal {
 	}
 	body := list.Cells
 	var ret *LVal
+	if len(body) > 1 {
+		// A frame reused by a tail-call iteration still carries Terminal=true
+		// from the previous iteration's last expression.  Left set, a call made
+		// by one of the leading body forms finds a "terminal" chain back to
+		// this frame and is elided as if it were a tail call -- its value is
+		// dropped and the body simply carries on.
+		env.Runtime.Stack.Top().Terminal = false
+	}
 	for i := range len(body) - 1 {
 		ret = fenv.eval(ctx, body[i])
 		if ret.Type == LError {
